@@ -1,6 +1,6 @@
 Require Extraction.
 Require Import ExtrOcamlBasic.
 From GoPdf.Base Require Import WireAnchor.
-From GoPdf.C01 Require Import Lex Obj Num Names Strings Format Scan BufSrc Readers.
+From GoPdf.C01 Require Import Lex Obj Num Names Strings Format Scan Wf BufSrc Readers.
 Separate Extraction wire_anchor std_limits mkLimits format scan_objects parse_string parse_name
-  fmt_string fmt_name canon norm read_atoms_buffered read_atoms_list scanner_buf format_opt text_ordered.
+  fmt_string fmt_name canon norm read_atoms_buffered read_atoms_list scanner_buf format_opt text_ordered format_checked.
